@@ -475,6 +475,12 @@ func (vp baseStuckVoteproof) isValid(networkID []byte, ovp baseVoteproof) error 
 		return util.ErrInvalid.Errorf("empty expels")
 	}
 
+	// NOTE the votes of stuck voteproof are not counted; it can not have
+	// majority.
+	if ovp.majority != nil {
+		return util.ErrInvalid.Errorf("stuck voteproof should not have majority")
+	}
+
 	return isValidithdrawVoteproof(networkID, vp.expels, ovp)
 }
 
